@@ -39,7 +39,7 @@ class FakeRegister:
 
 
 def make_pulser_data(env, n, user_matrix, reg_matrix, cutoff, slm_targets, slm_end, reps=1, bad=None, n_samples=1):
-    """A PulserData with exactly the fields get_sequences reads (Pulser objects
+    """A PulserData with every attribute the real constructor sets (Pulser objects
     replaced by duck-typed stubs carrying symbolic data)."""
     T = env.torch
     pa = env.mod("emu_base.pulser_adapter")
@@ -53,6 +53,8 @@ def make_pulser_data(env, n, user_matrix, reg_matrix, cutoff, slm_targets, slm_e
     pd.interaction_cutoff = cutoff
     pd.slm_end_time = slm_end
     pd.lindblad_ops = []
+    pd.has_lindblad_noise = False
+    pd.dim = 2
     pd.noise_model = SimpleNamespace(state_prep_error=0.0)
     pd.eigenstates = ["r", "g"]
     pd.hamiltonian_type = pa.HamiltonianType.Rydberg
